@@ -18,6 +18,7 @@ const quotaWebhookPkg = "pkg/webhook/elasticquota"
 var topoMaps = map[string]bool{"quotaInfoMap": true, "quotaHierarchyInfo": true, "namespaceToQuotaMap": true}
 
 func c15(c *Ctx) {
+	c15listErrorRejects(c)
 	r := c.R
 	r.Decides("no write to the recorded topology (quotaInfoMap, quotaHierarchyInfo, namespaceToQuotaMap) lies on a path that can still return an error: a rejected request leaves the topology unchanged")
 	r.Decides("only ValidAddQuota/ValidUpdateQuota/ValidDeleteQuota write the topology; validators and checks write nothing")
